@@ -511,6 +511,13 @@ def inv_views(ctx):
     return rep.out
 
 
+def _no_np(ops):
+    """Without the numpy-integer ID: `np.int64(3) == (1, 'e')` broadcasts to an array, so plain `==` / `in` between a numpy
+    scalar ID and a tuple ID is not a truth value - in this oracle's own list comparisons as anywhere else.  Numpy IDs are
+    exercised by C01-C05 and C07, whose oracles compare through dictionaries."""
+    return [o for o in ops if "NP3" not in o]
+
+
 def _structural(ops):
     drop = ("H.cleanup", "xgi.", "H.__setitem__", "H.set_node_attributes(5", "H.update(nodes", "H.clear(remove_net_attr",
             "H.add_edges_from(5)", "H.merge_duplicate_edges(rename='tuple', merge_rule='union')",
@@ -532,6 +539,16 @@ def specs(tier):
                      namespace=histcheck.base_namespace),
         explore.Spec("simplicialcomplex-views", c03.SEEDS, _structural(A.simplicial_static())[:45],
                      [A.gen_simplex_removals], invariants=[inv_views], depth=depth, dev_bound=1,
+                     namespace=histcheck.base_namespace),
+        # labels / IDs of other types (tuple, string, float; tuple, string, numpy integer, frozenset, bytes)
+        explore.Spec("hypergraph-views-exotic-labels", ["xgi.Hypergraph()", "xgi.Hypergraph({ET: [TA, SB], 0: [SB, FC], ES: [FC]})"],
+                     _no_np(_structural(A.hypergraph_exotic())), [A.gen_member_removals], invariants=[inv_views], depth=2, dev_bound=1,
+                     namespace=histcheck.base_namespace),
+        explore.Spec("dihypergraph-views-exotic-labels", ["xgi.DiHypergraph()", "xgi.DiHypergraph({ET: ([TA], [SB]), 0: ([SB, FC], [TA])})"],
+                     _no_np(_structural(A.dihypergraph_exotic())), [A.gen_dimember_removals], invariants=[inv_views], depth=2, dev_bound=1,
+                     namespace=histcheck.base_namespace),
+        explore.Spec("simplicialcomplex-views-exotic-labels", ["xgi.SimplicialComplex()", "xgi.SimplicialComplex({ET: [TA, SB], 5: [SB, FC]})"],
+                     _no_np(_structural(A.simplicial_exotic())), [A.gen_simplex_removals], invariants=[inv_views], depth=2, dev_bound=1,
                      namespace=histcheck.base_namespace),
     ]
     return sp
